@@ -172,6 +172,19 @@ pub(crate) mod verif_c14_ns {
     8 35 c14_ns_rt_w8 c14_ns_canon_w8 c14_fns_rt_w8;
   }
 
+  // [c14.ns.reject] with room for up to 13 words in the buffer: 256 < num_bits <= 384 ==> Err
+  // (a reader that let such a set through would report members outside the 256-element window)
+  #[kani::proof] #[kani::unwind(15)]
+  #[kani::stub(alloc::fmt::format, stub_format)] #[kani::stub(alloc::vec::Vec::with_capacity, stub_with_capacity)]
+  fn c14_ns_reject() {
+    let e = any_endianness();
+    let mut r = Buf { b: kani::any(), pos: 0, end: CAP, ctx: Ctx(e) };
+    let nbb = [r.b[8], r.b[9], r.b[10], r.b[11]];
+    let wire_num_bits = if e == Endianness::LittleEndian { u32::from_le_bytes(nbb) } else { u32::from_be_bytes(nbb) };
+    kani::assume(wire_num_bits > 256 && wire_num_bits <= 384);
+    assert!(NumberSet::<SequenceNumber>::read_from(&mut r).is_err(), "c14.ns.reject");
+  }
+
   // ---- ACKNACK / GAP / NACK_FRAG through the same back end (derive-generated impls, generic in
   // Reader/Writer): all fields symbolic, the set with W words --------------------------------------
   fn acknack_rt<const W: usize>() {
